@@ -53,8 +53,10 @@ fn veh_class(b: [u8; 4]) -> (&'static str, bool) {
         Err(()) => ("panic", false),
         Ok(Err(_)) => ("error", true),
         Ok(Ok(v)) => {
-            let mut w = Cursor::new(Vec::with_capacity(4));
-            let ok = matches!(guard(|| v.write_le(&mut w)), Ok(Ok(()))) && w.into_inner() == b;
+            // no heap allocation in this hot loop (the counting allocator's atomics would be contended by 16 threads)
+            let mut back = [0u8; 4];
+            let mut w = Cursor::new(&mut back[..]);
+            let ok = matches!(guard(|| v.write_le(&mut w)), Ok(Ok(()))) && back == b;
             match v {
                 Vehicle::Mod(_) => ("mod", ok),
                 Vehicle::Unknown => ("unknown", ok),
@@ -579,16 +581,9 @@ pub fn cmd_values_trace(a: &HashMap<String, String>) -> i32 {
     let mut n = 0usize;
     match what.as_str() {
         "veh" => {
-            if thorough {
-                n += veh_exhaustive(&mut w);
-            } else {
-                let alnum: Vec<u8> = (b'0'..=b'9').chain(b'A'..=b'Z').chain(b'a'..=b'z').collect();
-                for _ in 0..40000 {
-                    let b = [alnum[rng.gen_range(0..62)], alnum[rng.gen_range(0..62)], alnum[rng.gen_range(0..62)], 0];
-                    let _ = writeln!(w, "{}", veh_event(b));
-                    n += 1;
-                }
-            }
+            // all 2^32 identifiers, in both tiers (about 5 s on 16 cores)
+            let _ = thorough;
+            n += veh_exhaustive(&mut w);
             for _ in 0..10000 {
                 let b: [u8; 4] = rng.gen();
                 let _ = writeln!(w, "{}", veh_event(b));
